@@ -40,13 +40,15 @@ func (c *Chunk) getRecord(i int) []string {
 // there are any errors writing data.
 func WriteCSV(ctx context.Context, iter *ChunkIterator, writer io.Writer) error {
 	var numFields int
+	var headerWritten bool
 	csvw := csv.NewWriter(writer)
 	for iter.Next() {
 		if ctx.Err() != nil {
 			return errors.New("operation aborted")
 		}
 		chunk := iter.Chunk()
-		if numFields == 0 {
+		if !headerWritten {
+			headerWritten = true
 			fieldNames := chunk.getFieldNames()
 			if err := csvw.Write(fieldNames); err != nil {
 				return errors.Wrap(err, "problem writing field names")
@@ -96,6 +98,10 @@ func DumpCSV(ctx context.Context, iter *ChunkIterator, prefix string) error {
 		numFields int
 		fileCount int
 		csvw      *csv.Writer
+
+		// a chunk may have no metrics at all, so the number of
+		// fields cannot double as the "no header yet" marker.
+		headerWritten bool
 	)
 	for iter.Next() {
 		if ctx.Err() != nil {
@@ -112,7 +118,8 @@ func DumpCSV(ctx context.Context, iter *ChunkIterator, prefix string) error {
 		}
 
 		chunk := iter.Chunk()
-		if numFields == 0 {
+		if !headerWritten {
+			headerWritten = true
 			fieldNames := chunk.getFieldNames()
 			if err = csvw.Write(fieldNames); err != nil {
 				return errors.Wrap(err, "problem writing field names")
